@@ -111,15 +111,15 @@ ALIASES = {"c18_snapshots": "c18", "c20_tools": "c20", "c17_readers": "c17a", "c
 
 
 def C01(ctx):
-    std_check(ctx, [dict(harness="c01", aliases=["c01_load"], cases=(1000, 8000), max_ops=1)])
+    std_check(ctx, [dict(harness="c01", aliases=["c01_load"], cases=(1000, 4000), max_ops=1)])
 
 
 def C02(ctx):
-    std_check(ctx, [dict(harness="c02", aliases=["c02_history"], cases=(450, 3600), max_ops=12)])
+    std_check(ctx, [dict(harness="c02", aliases=["c02_history"], cases=(450, 1800), max_ops=12)])
 
 
 def C03(ctx):
-    std_check(ctx, [dict(harness="c03", aliases=["c03_bitmap"], cases=(500, 4000), max_ops=24)])
+    std_check(ctx, [dict(harness="c03", aliases=["c03_bitmap"], cases=(500, 2000), max_ops=24)])
 
 
 def run_fuzz_targets(ctx, targets):
@@ -137,47 +137,47 @@ def run_fuzz_targets(ctx, targets):
 
 
 def C04(ctx):
-    std_check(ctx, [dict(harness="c04", aliases=["c04_strings"], cases=(2200, 17600), max_ops=10)])
+    std_check(ctx, [dict(harness="c04", aliases=["c04_strings"], cases=(2200, 8800), max_ops=10)])
     rule = "libFuzzer bytes -> NUL-terminated string parsed from an exactly-sized heap block into fresh/dirty/full destinations; non-trivial = accepted by the parser (distinct accepted inputs counted in-target)"
     run_fuzz_targets(ctx, [
-        dict(name="fz_bitmap_hwloc", seconds=(20, 240), workers=(5, 5), max_len=256, rule=rule,
+        dict(name="fz_bitmap_hwloc", seconds=(20, 120), workers=(5, 5), max_len=256, rule=rule,
              seeds=[b"0xffffffff,0x00000006,0x00000002", b"0xf...f,0x0000ffff", b"0x0", b"0xf...f", b"0x1,0x0,0x0"]),
-        dict(name="fz_bitmap_list", seconds=(20, 240), workers=(5, 5), max_len=256, rule=rule,
+        dict(name="fz_bitmap_list", seconds=(20, 120), workers=(5, 5), max_len=256, rule=rule,
              seeds=[b"1,33-34,64-95", b"0-", b"2,4-5,7-", b"", b"0x10-0x20"]),
-        dict(name="fz_bitmap_taskset", seconds=(20, 240), workers=(5, 5), max_len=256, rule=rule,
+        dict(name="fz_bitmap_taskset", seconds=(20, 120), workers=(5, 5), max_len=256, rule=rule,
              seeds=[b"0xffffffff0000000600000002", b"0xf...f", b"0xf...f0000ffff", b"0x0", b"ff"]),
     ])
 
 
 def C08(ctx):
-    std_check(ctx, [dict(harness="c08", aliases=["c08_restrict"], cases=(900, 7200), max_ops=3)])
+    std_check(ctx, [dict(harness="c08", aliases=["c08_restrict"], cases=(900, 3600), max_ops=3)])
 
 
 def C12(ctx):
-    std_check(ctx, [dict(harness="c12", aliases=["c12_dup"], cases=(200, 1600), max_ops=12)])
+    std_check(ctx, [dict(harness="c12", aliases=["c12_dup"], cases=(200, 800), max_ops=12)])
 
 
 def C15(ctx):
-    std_check(ctx, [dict(harness="c15", aliases=["c15_cpukinds"], cases=(1500, 12000), max_ops=10)])
+    std_check(ctx, [dict(harness="c15", aliases=["c15_cpukinds"], cases=(1500, 6000), max_ops=10)])
 
 
 def C13(ctx):
-    std_check(ctx, [dict(harness="c13", aliases=["c13_distances"], cases=(700, 5600), max_ops=14)])
+    std_check(ctx, [dict(harness="c13", aliases=["c13_distances"], cases=(700, 2800), max_ops=14)])
 
 
 def C14(ctx):
-    std_check(ctx, [dict(harness="c14", aliases=["c14_memattrs"], cases=(700, 5600), max_ops=16)])
+    std_check(ctx, [dict(harness="c14", aliases=["c14_memattrs"], cases=(700, 2800), max_ops=16)])
 
 
 def C16(ctx):
-    std_check(ctx, [dict(harness="c16", aliases=["c16_diff"], cases=(700, 5600), max_ops=6)])
+    std_check(ctx, [dict(harness="c16", aliases=["c16_diff"], cases=(700, 2800), max_ops=6)])
 
 
 def C05(ctx):
     jobs = []
     for e in ("0", "1"):
         for i in ("0", "1"):
-            jobs.append(dict(harness="c05", aliases=["c05_xml"], tag="c05-exp%s-imp%s" % (e, i), cases=(450, 3600), workers=(4, 4), max_ops=6,
+            jobs.append(dict(harness="c05", aliases=["c05_xml"], tag="c05-exp%s-imp%s" % (e, i), cases=(450, 1800), workers=(4, 4), max_ops=6,
                              env={"HWLOC_LIBXML_EXPORT": e, "HWLOC_LIBXML_IMPORT": i}))
     std_check_parallel(ctx, jobs)
 
@@ -203,7 +203,7 @@ def xml_seed_dir(ctx, maxsize=100000):
 def C06(ctx):
     jobs = []
     for i in ("0", "1"):
-        jobs.append(dict(harness="c06", aliases=["c06_xmlmut"], tag="c06-imp%s" % i, cases=(700, 5600), workers=(4, 5), max_ops=6, env={"HWLOC_LIBXML_IMPORT": i, "HWLOC_LIBXML_EXPORT": i}))
+        jobs.append(dict(harness="c06", aliases=["c06_xmlmut"], tag="c06-imp%s" % i, cases=(700, 2800), workers=(4, 5), max_ops=6, env={"HWLOC_LIBXML_IMPORT": i, "HWLOC_LIBXML_EXPORT": i}))
     std_check_parallel(ctx, jobs)
     sd, seeds = xml_seed_dir(ctx)
     os.makedirs(os.path.join(ctx.work, "fztmp"), exist_ok=True)
@@ -211,10 +211,10 @@ def C06(ctx):
     dictp = os.path.join(V.VERIF, "support", "xml.dict")
     diffseeds = [b'<?xml version="1.0" encoding="UTF-8"?>\n<!DOCTYPE topologydiff SYSTEM "hwloc2-diff.dtd">\n<topologydiff refname="r">\n  <diff type="0" obj_depth="1" obj_index="0" obj_attr_type="1" obj_attr_name="" obj_attr_oldvalue="nm" obj_attr_newvalue="nm+"/>\n  <diff type="0" obj_depth="3" obj_index="2" obj_attr_type="2" obj_attr_name="k0" obj_attr_oldvalue="v2" obj_attr_newvalue="v3"/>\n  <diff type="0" obj_depth="-3" obj_index="0" obj_attr_type="0" obj_attr_index="0" obj_attr_oldvalue="1073741824" obj_attr_newvalue="4096"/>\n</topologydiff>\n']
     run_fuzz_targets(ctx, [
-        dict(name="fz_xml", tag="fz_xml_nolibxml", seconds=(25, 240), workers=(5, 6), max_len=131072, rule=rule, seeds=seeds, dict=dictp, hang_is_violation=True, env={"HWLOC_LIBXML_IMPORT": "0", "HWLOC_LIBXML_EXPORT": "0", "VERIF_SEED_DIR": sd}),
-        dict(name="fz_xml", tag="fz_xml_libxml", seconds=(25, 240), workers=(4, 5), max_len=131072, rule=rule, seeds=seeds, dict=dictp, hang_is_violation=True, env={"HWLOC_LIBXML_IMPORT": "1", "HWLOC_LIBXML_EXPORT": "1", "VERIF_SEED_DIR": sd}),
-        dict(name="fz_xml_file", seconds=(25, 240), workers=(2, 2), max_len=131072, rule=rule, seeds=seeds, dict=dictp, hang_is_violation=True, env={"HWLOC_LIBXML_IMPORT": "0", "VERIF_SEED_DIR": sd, "VERIF_FUZZ_TMP": os.path.join(ctx.work, "fztmp")}),
-        dict(name="fz_diffxml", seconds=(25, 240), workers=(3, 3), max_len=8192, seeds=diffseeds, dict=dictp, hang_is_violation=True, rule="libFuzzer bytes -> hwloc_topology_diff_load_xmlbuffer; non-trivial = the diff loaded (then walked, re-exported, re-loaded, applied with rollback check)"),
+        dict(name="fz_xml", tag="fz_xml_nolibxml", seconds=(25, 120), workers=(5, 6), max_len=131072, rule=rule, seeds=seeds, dict=dictp, hang_is_violation=True, env={"HWLOC_LIBXML_IMPORT": "0", "HWLOC_LIBXML_EXPORT": "0", "VERIF_SEED_DIR": sd}),
+        dict(name="fz_xml", tag="fz_xml_libxml", seconds=(25, 120), workers=(4, 5), max_len=131072, rule=rule, seeds=seeds, dict=dictp, hang_is_violation=True, env={"HWLOC_LIBXML_IMPORT": "1", "HWLOC_LIBXML_EXPORT": "1", "VERIF_SEED_DIR": sd}),
+        dict(name="fz_xml_file", seconds=(25, 120), workers=(2, 2), max_len=131072, rule=rule, seeds=seeds, dict=dictp, hang_is_violation=True, env={"HWLOC_LIBXML_IMPORT": "0", "VERIF_SEED_DIR": sd, "VERIF_FUZZ_TMP": os.path.join(ctx.work, "fztmp")}),
+        dict(name="fz_diffxml", seconds=(25, 120), workers=(3, 3), max_len=8192, seeds=diffseeds, dict=dictp, hang_is_violation=True, rule="libFuzzer bytes -> hwloc_topology_diff_load_xmlbuffer; non-trivial = the diff loaded (then walked, re-exported, re-loaded, applied with rollback check)"),
     ])
 
 
@@ -246,7 +246,7 @@ def C18(ctx):
         for k, (i, _) in enumerate(allsn):
             owned[k % nw].append(i)
     ctx.extra["snapshots"] = {"linux": len(snaps["linux"]), "x86": len(snaps["x86"]), "x86+linux": len(snaps["x86+linux"]), "used_this_run": sorted(set(sum(owned, [])))}
-    std_check(ctx, [dict(harness="c18", aliases=["c18_snapshots"], cases=(250, 2000), max_ops=40, worker_env=lambda w: {"VERIF_C18_OWNED": ",".join(owned[w])})])
+    std_check(ctx, [dict(harness="c18", aliases=["c18_snapshots"], cases=(250, 1000), max_ops=40, worker_env=lambda w: {"VERIF_C18_OWNED": ",".join(owned[w])})])
     if not ctx.quick():
         c18_enumerate(ctx, [i for i, _ in sorted(snaps["linux"], key=lambda x: x[1])[:28]])
 
@@ -307,42 +307,42 @@ def C20(ctx):
     tools = None
     for t in V.TOOLS:
         tools = os.path.dirname(V.ensure_tool(t))
-    std_check(ctx, [dict(harness="c20", aliases=["c20_tools"], cases=(900, 7200), max_ops=5, env={"VERIF_TOOLS_DIR": tools})])
+    std_check(ctx, [dict(harness="c20", aliases=["c20_tools"], cases=(900, 3600), max_ops=5, env={"VERIF_TOOLS_DIR": tools})])
 
 
 def C17(ctx):
     # two harnesses built against the ThreadSanitizer flavour of hwloc and of the engine; every case is a forked child, the first TSan report ends it
     std_check_parallel(ctx, [
-        dict(harness="c17a", aliases=["c17_readers"], tag="c17-readers", cases=(600, 4800), workers=(10, 10), max_ops=40),
-        dict(harness="c17b", aliases=["c17_independent"], tag="c17-independent", cases=(170, 1360), workers=(6, 6), max_ops=24),
+        dict(harness="c17a", aliases=["c17_readers"], tag="c17-readers", cases=(600, 2400), workers=(10, 10), max_ops=40),
+        dict(harness="c17b", aliases=["c17_independent"], tag="c17-independent", cases=(170, 680), workers=(6, 6), max_ops=24),
     ])
 
 
 def C07(ctx):
-    std_check(ctx, [dict(harness="c07", aliases=["c07_synthetic"], cases=(350, 2800), max_ops=1)])
+    std_check(ctx, [dict(harness="c07", aliases=["c07_synthetic"], cases=(350, 1400), max_ops=1)])
     seeds = [b"pack:2 [numa] l3:2 core:2 pu:2", b"numa:3 pack:2 core:2 pu:1", b"2 3 4 5 6", b"pack:2 core:2 pu:2(indexes=core:pu)", b"Package:1 Group:4 [NUMANode(memory=1GB indexes=1,0,3,2)] [numa] core:4 pu:2(indexes=2*4:4*2)",
              b"(memory=4GB) pack:2 numa:2(memory=512MB memorysidecachesize=16MB) l2:2(size=1MB) pu:2", b"Group:1 Group:1 Group:1 Group:1 Group:1 pu:3"]
-    run_fuzz_targets(ctx, [dict(name="fz_synthetic", seconds=(20, 240), workers=(14, 14), max_len=512, seeds=seeds, dict=os.path.join(V.VERIF, "support", "syn.dict"), hang_is_violation=True,
+    run_fuzz_targets(ctx, [dict(name="fz_synthetic", seconds=(20, 120), workers=(14, 14), max_len=512, seeds=seeds, dict=os.path.join(V.VERIF, "support", "syn.dict"), hang_is_violation=True,
                                 rule="libFuzzer bytes -> NUL-terminated description in an exactly-sized heap block; set_synthetic returns 0 or -1/EINVAL, accepted small descriptions load into well-formed topologies and export obeys the length contract; non-trivial = accepted and loaded with depth >= 4 (distinct counted in-target)")])
 
 
 def C11(ctx):
-    std_check(ctx, [dict(harness="c11", aliases=["c11_types"], cases=(120, 960), max_ops=1)])
-    run_fuzz_targets(ctx, [dict(name="fz_typesscanf", seconds=(15, 240), workers=(6, 8), max_len=64, seeds=[b"L2iCache", b"OS[GPU,CoProc]", b"Group3", b"HostBridge", b"PCIBridge", b"node", b"pu"],
+    std_check(ctx, [dict(harness="c11", aliases=["c11_types"], cases=(120, 480), max_ops=1)])
+    run_fuzz_targets(ctx, [dict(name="fz_typesscanf", seconds=(15, 120), workers=(6, 8), max_len=64, seeds=[b"L2iCache", b"OS[GPU,CoProc]", b"Group3", b"HostBridge", b"PCIBridge", b"node", b"pu"],
                                 rule="libFuzzer bytes -> hwloc_type_sscanf on an exactly-sized heap block with a guarded attribute buffer; returns 0/-1, a returned type is valid and printing an object of that type/attributes parses back; non-trivial = accepted strings (distinct counted in-target)")])
     ctx.extra["exhaustive_slices"] = {"compare_types": "all %d x %d type pairs" % (20, 20), "parser": "32 names x 255 next bytes x 3 suffixes = 24480 calls", "where": "named case 'exhaustive' in the replay tier (runs on every check) and on a 4% sample of generated cases"}
 
 
 def C09(ctx):
-    std_check(ctx, [dict(harness="c09", aliases=["c09_helpers"], cases=(600, 4800), max_ops=1)])
+    std_check(ctx, [dict(harness="c09", aliases=["c09_helpers"], cases=(600, 2400), max_ops=1)])
 
 
 def C19(ctx):
-    std_check(ctx, [dict(harness="c19", aliases=["c19_shmem"], cases=(450, 3600), max_ops=5)])
+    std_check(ctx, [dict(harness="c19", aliases=["c19_shmem"], cases=(450, 1800), max_ops=5)])
 
 
 def C10(ctx):
-    std_check(ctx, [dict(harness="c10", aliases=["c10_binding"], cases=(1200, 9600), max_ops=1)])
+    std_check(ctx, [dict(harness="c10", aliases=["c10_binding"], cases=(1200, 4800), max_ops=1)])
     ctx.extra["extra_assumptions"] = ["the live round trips (1 case in 8) depend on this sandbox: its kernel, cgroup configuration, allowed CPUs; the recording-mode part is machine independent"]
 
 
